@@ -64,6 +64,8 @@ def regex_family(ns):
         fam.append(re.escape(p) + "\\.[^.]+$")
         for a, b in itertools.combinations(kids, 2):
             fam.append("^(" + re.escape(a) + "|" + re.escape(b) + ")$")
+            fam.append(re.escape(a) + "|" + re.escape(b))
+            fam.append(re.escape(b) + "$|" + re.escape(a) + "$")
     fam.append(".*")
     fam.append("^zzz$")
     seen, out = set(), []
@@ -97,7 +99,7 @@ def mk(verb, imp, exc, subj_kind, subj, obj_kind, obj):
             return r.are_sub_modules_of(list(val))
         if kind == "regex":
             return r.have_name_matching(val)
-        return r.have_name_containing(val)
+        return r.have_name_containing(list(val) if isinstance(val, (list, tuple)) else val)
 
     r = apply(Rule().modules_that(), subj_kind, subj)
     r = getattr(r, verb)()
@@ -168,6 +170,41 @@ def check_graph(ns, I, seed, res, only=None):
                     note("regex:both")
                     if ga != gb:
                         viol.append(("regex-differs-from-expansion", ("regex2", p1, p2, "both", verb, imp, exc), {"expansion": [m1, m2], "outcome": gb}, ga))
+    # (b2) batches of partial names: equal to the union of the single expansions; one name of the
+    # batch matching nothing is a no-match error, never a verdict
+    globs = glob_family(ns)
+    matching = [g for g in globs if any(glob_matches(g, n) for n in ns) and g != "*"][:4]
+    for g1 in matching:
+        for g2 in matching[1:3] + ["zzz", "*zzz*"]:
+            if g1 == g2:
+                continue
+            m1 = {n for n in ns if glob_matches(g1, n)}
+            m2 = {n for n in ns if glob_matches(g2, n)}
+            for other in fixed_named[:2]:
+                for side in ("subj", "obj"):
+                    for verb, imp, exc in SHAPES:
+                        key = ("glob-batch", (g1, g2), other, side, verb, imp, exc)
+                        if only and only != key:
+                            continue
+                        if side == "subj":
+                            a = mk(verb, imp, exc, "glob", [g1, g2], "named", other)
+                        else:
+                            a = mk(verb, imp, exc, "named", other, "glob", [g1, g2])
+                        ga = oc(run_rule(a, ev))
+                        if not m2:
+                            note("glob:nomatch")
+                            if ga in ("PASS", "FAIL"):
+                                viol.append(("glob-without-match-gives-verdict", key, "a no-match error", ga))
+                            continue
+                        union = sorted(m1 | m2)
+                        if side == "subj":
+                            b = mk(verb, imp, exc, "named", union, "named", other)
+                        else:
+                            b = mk(verb, imp, exc, "named", other, "named", union)
+                        gb = oc(run_rule(b, ev))
+                        note("glob:batch")
+                        if ga != gb:
+                            viol.append(("glob-differs-from-expansion", key, {"expansion": union, "outcome": gb}, ga))
     # (c) batches incl. related modules
     for k in (2, 3):
         for xs in itertools.combinations(non_root, k):
